@@ -74,14 +74,16 @@ fn cmd_seq(plan_path: &str, out_prefix: &str) -> anyhow::Result<i32> {
                 if i >= jobs.len() {
                     break;
                 }
-                let res = match jobs[i]["engine"].as_str() {
+                let res = std::panic::catch_unwind(std::panic::AssertUnwindSafe(|| match jobs[i]["engine"].as_str() {
                     Some("variants") => lock::run_variants(&jobs[i], &scratch, &mut w),
                     Some("ni") => lock::run_ni(&jobs[i], &scratch, &mut w),
                     _ => seq::run_job(&jobs[i], &scratch, &mut w),
-                };
+                }));
                 match res {
-                    Ok(s) => summaries.lock().unwrap().push(s),
-                    Err(e) => errors.lock().unwrap().push(format!("job {}: {e:#}", jobs[i]["id"])),
+                    Ok(Ok(s)) => summaries.lock().unwrap().push(s),
+                    Ok(Err(e)) => errors.lock().unwrap().push(format!("job {}: {e:#}", jobs[i]["id"])),
+                    // the harness itself gave up on this job: never a silent pass
+                    Err(_) => errors.lock().unwrap().push(format!("job {}: the harness panicked", jobs[i]["id"])),
                 }
             }
             let _ = w.flush();
